@@ -70,6 +70,9 @@ struct Exec {
     trace: Vec<String>,
     violations: Vec<(String, String)>,
     relabelled: HashSet<u32>,
+    /// resources given back (any way) after the refresh superseding them had begun: a foreign label
+    /// seen on them later is a consequence of that give-back, not a cause
+    returned_superseded: HashSet<u32>,
     overlap: bool,
     labels: Vec<String>,
     /// 0 = refresh not started, 1 = in progress, 2 = completed (observation only)
@@ -178,7 +181,11 @@ fn user(pool: &ResourcePool<Res>, completed: &AtomicU64, size: usize, name: &str
     trace(format!("{name} acquires: served resource #{id} of generation {born}, item label {lab}"));
     if lab != born {
         // classification only: in these scenarios generation g is refreshed under discriminant g
-        with_exec(|e| e.relabelled.insert(id));
+        with_exec(|e| {
+            if !e.returned_superseded.contains(&id) {
+                e.relabelled.insert(id);
+            }
+        });
     }
     if born < completed_before {
         violation(
@@ -195,7 +202,12 @@ fn user(pool: &ResourcePool<Res>, completed: &AtomicU64, size: usize, name: &str
     if use_yields {
         loom::thread::yield_now();
     }
-    let phase_at_give_back = with_exec(|e| e.refresh_phase);
+    let phase_at_give_back = with_exec(|e| {
+        if e.refresh_phase > 0 && born == 0 {
+            e.returned_superseded.insert(id);
+        }
+        e.refresh_phase
+    });
     if phase_at_acquire < 2 && phase_at_give_back > 0 {
         with_exec(|e| e.overlap = true);
     }
